@@ -140,7 +140,9 @@ void h_export_write (void)
 		CANARY ("exp ok");
 	} else {
 		OBL (e.write_error || in.vsn_fail, "exp.failure is sticky");
+#if SEL_OP != 2	/* the printf case excludes allocation failures */
 		CANARY ("exp failed");
+#endif
 	}
 	/* the caller's buffer is the caller's; a reallocated heap buffer was released by realloc */
 	if (e.buffer.data != caller_buf) {
